@@ -160,6 +160,12 @@ def gen_pairs(ctx, rng, count, ref=None):
             opts["patch"] = "1"
         if rng.random() < .4:
             opts["mup"] = rng.choice(["4", "8", "-1"])
+        # options that must not disturb the evolution of the timelines (they change other parts of the document)
+        for k, vals, p_ in (("events", ["ping", "scte35"], .12), ("ping__inband", ["0"], .1), ("acodec", ["ec-3", "any"], .1),
+                            ("abr", ["0"], .12), ("base", ["0"], .12), ("leeway", ["0", "60"], .1),
+                            ("drm", ["all", "clearkey"], .2 if stream == "bbb" else 0), ("time", ["direct", "iso"], .1)):
+            if rng.random() < p_:
+                opts[k] = rng.choice(vals)
         t1 = datetime.datetime(rng.choice([2022, 2024, 2030]), rng.randrange(1, 13), rng.randrange(2, 28),
                                rng.randrange(24), rng.randrange(60), rng.randrange(60),
                                rng.choice([0, 500000, rng.randrange(10 ** 6)]), tzinfo=datetime.timezone.utc)
